@@ -74,7 +74,7 @@ impl<'a> Ctx<'a> {
 
 const NAMES: [&str; 18] = ["function", "a", "foo", "x", "", "1abc", "é", "alert", "$", "_a$1", "a\u{200d}b", "\u{200d}a", "𝒳y", "a١", "١a", "日本", "$_𝒳\u{200d}é", "aé"];
 /// strip_prefixes tables shared by the regular, Hermes and index rewrites
-const PREFIXES: [&[&str]; 12] = [
+const PREFIXES: [&[&str]; 18] = [
     &[],
     &["~"],
     &["a"],
@@ -87,6 +87,12 @@ const PREFIXES: [&[&str]; 12] = [
     &["/srv/app/", "~"],
     &["/srv/app/src/é.js"],
     &["C:\\p\\", "/"],
+    &["C:/p/"],
+    &["C:/p/q/b.js", "~"],
+    &["C:\\p\\q\\b.js"],
+    &["C:/p/a.js/"],
+    &["C:\\p", "C:/p"],
+    &["c:/P/", "\\\\srv\\share"],
 ];
 const POS_EXTREMES: [u32; 5] = [0, 1, 1 << 31, u32::MAX - 1, u32::MAX];
 
@@ -131,6 +137,9 @@ fn token_touch(cx: &mut Ctx, t: &Token) {
             cx.digest.u64(sv.line_count() as u64);
             cx.call("SourceView::lines (embedded contents)");
             cx.digest.u64(sv.lines().map(str::len).sum::<usize>() as u64);
+            if t.get_dst_col() % 5 == 0 && sv.source().len() < 4096 {
+                iter_protocol(cx, "Lines (Iterator protocol)", sv.line_count(), &|| sv.lines());
+            }
             cx.call("SourceView::sourcemap_reference (embedded contents)");
             cx.digest.u64(sv.sourcemap_reference().map(|r| r.is_some()).unwrap_or(false) as u64);
         }
@@ -193,6 +202,49 @@ pub fn make_views(cx: &mut Ctx) -> Vec<SourceView> {
     };
     v.push(SourceView::from_string(seeded));
     v
+}
+
+/// The Iterator protocol on one of the library's iterators: what a caller may legally do with
+/// any `Iterator` (keep calling `next` after `None`, `nth`/`skip`/`step_by` from any state,
+/// `size_hint`, `last`, `count`), from a fresh iterator each time.
+fn iter_protocol<I: Iterator>(cx: &mut Ctx, name: &'static str, len: usize, mk: &dyn Fn() -> I) {
+    cx.call(name);
+    let k = if len == 0 { 0 } else { cx.rng.below_usize(len + 2) };
+    let step = 1 + cx.rng.below_usize(4);
+    // exhausted, then used again
+    let mut it = mk();
+    let mut n = 0usize;
+    while it.next().is_some() {
+        n += 1;
+        if n > len + 8 {
+            break; // an iterator longer than its collection is not this check's business
+        }
+    }
+    cx.digest.u64(n as u64);
+    cx.digest.u64(it.next().is_some() as u64);
+    cx.digest.u64(it.size_hint().0 as u64);
+    cx.digest.u64(it.nth(0).is_some() as u64);
+    cx.digest.u64(it.nth(k).is_some() as u64);
+    cx.digest.u64(it.next().is_some() as u64);
+    cx.digest.u64(it.last().is_some() as u64);
+    // nth from a fresh and from a partly consumed iterator, at and beyond the end
+    for first in [k, len.saturating_sub(1), len, len + 1, usize::MAX >> 40] {
+        let mut it = mk();
+        cx.digest.u64(it.nth(first).is_some() as u64);
+        cx.digest.u64(it.nth(0).is_some() as u64);
+        cx.digest.u64(it.nth(k).is_some() as u64);
+        let (lo, hi) = it.size_hint();
+        cx.digest.u64(lo as u64);
+        cx.digest.u64(hi.map(|h| h >= lo) .unwrap_or(true) as u64);
+        cx.digest.u64(it.next().is_some() as u64);
+    }
+    cx.digest.u64(mk().skip(k).step_by(step).take(8).count() as u64);
+    cx.digest.u64(mk().step_by(step).skip(k / 2).count() as u64);
+    let mut it = mk();
+    cx.digest.u64(it.by_ref().take(k).count() as u64);
+    cx.digest.u64(it.size_hint().0 as u64);
+    cx.digest.u64(it.last().is_some() as u64);
+    cx.digest.u64(mk().count() as u64);
 }
 
 pub fn regular(cx: &mut Ctx, sm: &SourceMap, full: bool) {
@@ -314,6 +366,28 @@ pub fn regular(cx: &mut Ctx, sm: &SourceMap, full: bool) {
             cx.digest.u64(it.take(3).count() as u64);
         }
     }
+    if on(10) && ntok <= 20_000 {
+        iter_protocol(cx, "TokenIter (Iterator protocol)", ntok, &|| sm.tokens());
+        iter_protocol(cx, "SourceIter (Iterator protocol)", sm.get_source_count() as usize, &|| sm.sources());
+        iter_protocol(cx, "NameIter (Iterator protocol)", sm.get_name_count() as usize, &|| sm.names());
+        iter_protocol(cx, "SourceContentsIter (Iterator protocol)", sm.get_source_count() as usize, &|| sm.source_contents());
+        iter_protocol(cx, "ignore_list (Iterator protocol)", sm.ignore_list().count(), &|| sm.ignore_list());
+        // a token iterator that was positioned with seek, before, inside and behind the tokens
+        for _ in 0..3 {
+            let (l, c) = if ntok > 0 && cx.rng.chance(1, 2) {
+                let i = cx.rng.below_usize(ntok);
+                let (l, c) = sm.get_token(i).map(|t| t.get_dst()).unwrap_or((0, 0));
+                (l, c.saturating_add(cx.rng.below(3) as u32))
+            } else {
+                random_pos(&mut cx.rng)
+            };
+            iter_protocol(cx, "TokenIter after seek (Iterator protocol)", ntok, &|| {
+                let mut it = sm.tokens();
+                it.seek(l, c);
+                it
+            });
+        }
+    }
     if on(5) && ntok <= 4000 {
         cx.call("Debug for SourceMap");
         let s = format!("{sm:?}");
@@ -405,7 +479,7 @@ pub fn regular(cx: &mut Ctx, sm: &SourceMap, full: bool) {
     }
     if on(7) && cx.depth < 2 {
         let prefixes = &PREFIXES;
-        let combos: Vec<(bool, bool, usize)> = if full {
+        let combos: Vec<(bool, bool, usize)> = if full && ntok <= 20_000 {
             let mut v = Vec::new();
             for a in [false, true] {
                 for b in [false, true] {
@@ -416,7 +490,9 @@ pub fn regular(cx: &mut Ctx, sm: &SourceMap, full: bool) {
             }
             v
         } else {
-            (0..3).map(|_| (cx.rng.chance(1, 2), cx.rng.chance(1, 2), cx.rng.below_usize(prefixes.len()))).collect()
+            // a sample of the combinations (a larger one for the full workload on a large map,
+            // where all 72 would cost seconds)
+            (0..if full { 8 } else { 3 }).map(|_| (cx.rng.chance(1, 2), cx.rng.chance(1, 2), cx.rng.below_usize(prefixes.len()))).collect()
         };
         for (with_names, with_source_contents, p) in combos {
             let opts = RewriteOptions { with_names, with_source_contents, strip_prefixes: prefixes[p], ..Default::default() };
@@ -636,6 +712,9 @@ pub fn index(cx: &mut Ctx, smi: &SourceMapIndex, full: bool) {
     for idx in [0u32, n.wrapping_sub(1), n, u32::MAX] {
         cx.call("SourceMapIndex::get_section");
         cx.digest.u64(smi.get_section(idx).is_some() as u64);
+    }
+    if n <= 5000 {
+        iter_protocol(cx, "SourceMapSectionIter (Iterator protocol)", n as usize, &|| smi.sections());
     }
     cx.call("SourceMapIndex::sections");
     let mut positions: Vec<(u32, u32)> = Vec::new();
